@@ -77,6 +77,21 @@ def run(ctx, res):
             pl.append([f for f in fl if f["text"].strip()])
         cases.append({"name": name, "schemaFiles": base, "opFiles": [{"rel": r, "text": t} for r, t in OPS[name]], "config": CONFIG,
                       "runs": 3 if ctx.quick else 10, "perms": pl, "schemaOutput": "gen/schema.d.ts", "schemaSource": "../gen/schema.js"})
+    # a FAULTY schema under every arrangement: the verdict may not depend on the order of definitions either.  Two directives that use each
+    # other in their argument definitions (a cycle), a third that uses one of them from outside the cycle, and the query root.
+    cyc = ["directive @tagged(x: Int @labelled) on ARGUMENT_DEFINITION\n", "directive @labelled(y: Int @tagged) on ARGUMENT_DEFINITION\n",
+           "directive @audit(z: Int @tagged) on FIELD_DEFINITION\n", "type Query { a: Int }\n"]
+    while len(cyc) < nb:
+        cyc.append("")
+    if len(cyc) == nb:
+        pl = []
+        for p in perms:
+            order = [cyc[i - 1] for i in p["perm"]]
+            a, b = "".join(order[:p["split"]]), "".join(order[p["split"]:])
+            pl.append([f for f in [{"rel": "schema/s0.graphql", "text": a}, {"rel": "schema/s1.graphql", "text": b}] if f["text"].strip()])
+        cases.append({"name": "faulty-directive-cycle", "faulty": True, "schemaFiles": [{"rel": "schema/s0.graphql", "text": "".join(cyc)}],
+                      "opFiles": [{"rel": "ops/a.graphql", "text": "query Q { a }\n"}], "config": CONFIG, "runs": 2, "perms": pl,
+                      "schemaOutput": "gen/schema.d.ts", "schemaSource": "../gen/schema.js"})
     # projects WITH diagnostics: the reported diagnostics and their order must not depend on the process either (several faults at one
     # site, at several sites and in several files; operation faults and schema faults)
     ops_schema = [{"rel": "schema/s0.graphql", "text": "".join(texts["ops"])}]
